@@ -13,6 +13,7 @@ import JsonV.Lemmas.WireNumberScan
 import JsonV.Lemmas.WireString
 import JsonV.Lemmas.WireValue
 import JsonV.Lemmas.WireFuel
+import JsonV.Lemmas.WireComplete
 import JsonV.Lemmas.GlueResume
 import JsonV.Lemmas.GlueResumeStr
 import JsonV.Gen.Constants
@@ -259,17 +260,60 @@ theorem stream_sound (o : VOpts) (b : Bytes) (cnt off : Nat) (h : stream o b = (
     JStream (gopts o) maxNestingDepth (nameKey o) b :=
   JsonV.Lemmas.WireFuel.stream_sound' o b cnt off h
 
-/-- The full statements that are NOT proved.  `valid_complete_full` is the converse of `valid_sound`
-(including "`fuelFor` suffices"); `stream_iff_full` is the stream recogniser (its ⇒ half is `stream_sound`); `token_value_full` says that the
-token path (Model/TokenLoop.lean) and the value path give the same verdict.  They are validated by the
-correspondence runs (the harness compares both model paths with each other and with the code on every input). -/
-def valid_complete_full : Prop :=
-  ∀ (o : VOpts) (b : Bytes), JText (gopts o) maxNestingDepth (nameKey o) b → isValid o b = true
+/-- Completeness of the value path: every value of the grammar instance selected by the options is accepted
+at every depth it can occur, with exactly its length, whatever follows it — provided what follows is nothing or
+starts with a delimiter (blank, `,`, `]`, `}`), which only matters for numbers — and given the fuel `3·|input| + 1`. -/
+theorem value_complete (o : VOpts) (d : Nat) (v rest : Bytes) (fuel : Nat)
+    (h : JValue (gopts o) maxNestingDepth (nameKey o) d v)
+    (hrest : ∀ c t, rest = c :: t → (isWs c || c == 0x2C || c == 0x5D || c == 0x7D) = true)
+    (hf : 3 * (v ++ rest).length + 1 ≤ fuel) :
+    consumeValue o fuel (d + 1) (v ++ rest) = (v.length, .ok) :=
+  (JsonV.Lemmas.WireComplete.value_complete o d v h).1 rest fuel
+    (JsonV.Lemmas.WireComplete.follow_of_delim v rest hrest) hf
 
-def stream_iff_full : Prop :=
-  ∀ (o : VOpts) (b : Bytes), (∃ cnt, stream o b = (cnt, b.length, .ioEOF)) ↔ JStream (gopts o) maxNestingDepth (nameKey o) b
+/-- Completeness of `Value.IsValid`: every text `ws value ws` of the grammar instance selected by the options
+(nesting ≤ 10000; strict UTF-8 and paired surrogates unless AllowInvalidUTF8; names unique after unescaping unless
+AllowDuplicateNames) is accepted. -/
+theorem valid_complete (o : VOpts) (b : Bytes) (h : JText (gopts o) maxNestingDepth (nameKey o) b) :
+    isValid o b = true := by
+  have := JsonV.Lemmas.WireComplete.validText_complete o b h
+  simp [isValid, this]
 
-/-- "read by tokens or by values": the ReadToken loop and the ReadValue loop complete the same number of
+/-- **Value.IsValid accepts exactly the grammar**, for every byte string and every combination of the two options. -/
+theorem valid_iff (o : VOpts) (b : Bytes) :
+    isValid o b = true ↔ JText (gopts o) maxNestingDepth (nameKey o) b :=
+  ⟨valid_sound o b, valid_complete o b⟩
+
+-- a text of the grammar: `[1]`
+example : JText (gopts {}) maxNestingDepth (nameKey {}) [0x5B, 0x31, 0x5D] :=
+  (valid_iff {} _).1 (by decide +kernel)
+
+/-- Completeness of the stream recogniser: a stream of the grammar is read to a clean io.EOF at its very end. -/
+theorem stream_complete (o : VOpts) (b : Bytes) (h : JStream (gopts o) maxNestingDepth (nameKey o) b) :
+    ∃ cnt, stream o b = (cnt, b.length, .ioEOF) :=
+  JsonV.Lemmas.WireComplete.stream_complete o b h
+
+/-- **Over a stream, the ReadValue loop accepts exactly the grammar**: it reaches io.EOF — at the very end of the
+input — iff the input is a concatenation of texts separated by optional whitespace, read with maximal munch for
+numbers (see `JStream`: `1.52.5` is NOT accepted although `1.5` and `2.5` are texts). -/
+theorem stream_iff (o : VOpts) (b : Bytes) :
+    (∃ cnt, stream o b = (cnt, b.length, .ioEOF)) ↔ JStream (gopts o) maxNestingDepth (nameKey o) b :=
+  ⟨fun ⟨cnt, h⟩ => stream_sound o b cnt b.length h, stream_complete o b⟩
+
+/-- io.EOF can only be reported at the end of the input (never in front of unread bytes). -/
+theorem stream_eof_at_end (o : VOpts) (b : Bytes) (cnt off : Nat) (h : stream o b = (cnt, off, .ioEOF)) :
+    off = b.length := by
+  obtain ⟨cnt', h'⟩ := stream_complete o b (stream_sound o b cnt off h)
+  rw [h] at h'
+  simpa using congrArg (fun x => x.2.1) h'
+
+-- `1 2` is a stream of two values; in `1.52.5` the second read fails at offset 4
+example : stream {} [0x31, 0x20, 0x32] = (2, 3, .ioEOF) := by decide +kernel
+example : stream {} [0x31, 0x2E, 0x35, 0x32, 0x2E, 0x35] = (1, 4, .invalidChar) := by decide +kernel
+
+/-- The one full statement that is NOT proved; it is validated by the correspondence runs (the harness compares
+both model paths with each other and each with the code on every input).
+"read by tokens or by values": the ReadToken loop and the ReadValue loop complete the same number of
 top-level values and end cleanly (io.EOF) on exactly the same inputs (no slice exceeds 2^61 bytes). -/
 def token_value_full : Prop :=
   ∀ (o : VOpts) (b : Bytes), b.length < 2 ^ 61 →
